@@ -106,6 +106,13 @@ fn run_exhaustion<H: HK>(case: &FaultCase, ctx: &Ctx) -> Result<CaseInfo, Violat
         let mut post = model.clone();
         post.commit(&batch);
         let op = std::sync::Arc::new(OpUnderTest::Commit { batch: batch.clone(), overlay: i % 4 == 3, nonblocking: i % 5 == 4, opts: CommitOpts::default() });
+        // a second changeset prepared on the same base BEFORE the commit that may fail: committing it afterwards
+        // must be refused (building a new session on a poisoned handle is not required to work)
+        let extra = {
+            let kx = [0x42u8; 32];
+            let small = vec![(kx, MOp::Write(Some(std::sync::Arc::new(vec![1u8]))))];
+            db.begin(&[], false).and_then(|sx| db.finish(sx, &pre.cur, &small, &CommitOpts::default())).map_err(|f| v(i, f.sig()))?
+        };
         let (db2, pre2, op2) = (db.clone(), std::sync::Arc::new(pre.clone()), op.clone());
         let res = with_hang_guard("commit on a store whose merkle page table is (nearly) full", 60, move || exec(&db2, &pre2, &op2));
         match res {
@@ -131,11 +138,8 @@ fn run_exhaustion<H: HK>(case: &FaultCase, ctx: &Ctx) -> Result<CaseInfo, Violat
         if !db.nomt.is_poisoned() {
             return Err(v(i, "bucket exhaustion: the commit returned an error but the handle does not report itself poisoned".into()));
         }
-        let kx = [0x42u8; 32];
-        let small = vec![(kx, MOp::Write(Some(std::sync::Arc::new(vec![1u8]))))];
         let db3 = db.clone();
-        let pre3 = pre.clone();
-        let again = with_hang_guard("commit on a handle poisoned by bucket exhaustion", 60, move || db3.commit_batch(&pre3.cur, &small, &CommitOpts::default()));
+        let again = with_hang_guard("commit on a handle poisoned by bucket exhaustion", 60, move || db3.commit_finished(extra.fs));
         match again {
             Ok(_) => return Err(v(i, "bucket exhaustion: a further commit on the poisoned handle succeeded".into())),
             Err(f) if f.kind == FailKind::Panic => return Err(v(i, format!("bucket exhaustion: a further commit on the poisoned handle panicked: {}", f.msg))),
